@@ -1,0 +1,13 @@
+"""Verification hooks (no effect unless the environment variable EYECITE_VERIF=1 is set when
+eyecite is imported).  Events are kept in memory; a test harness reads and clears EVENTS."""
+
+import os
+
+ENABLED = os.environ.get("EYECITE_VERIF") == "1"
+EVENTS: list = []
+
+
+def emit(event: str, **fields) -> None:
+    """Record one event (a no-op when the guard is off)."""
+    if ENABLED:
+        EVENTS.append({"e": event, **fields})
